@@ -120,7 +120,8 @@ def udp_oracle(case, obs):
                 continue
             nlen, origin, buf = r["ok"]
             if nlen > buflen:
-                out.append(("%s: returned length %d exceeds the buffer" % (where, nlen), None))
+                out.append(("%s: returned length %d exceeds the buffer of %d bytes (a datagram is cut to the receive buffer length)" % (where, nlen, buflen), None))
+                continue
             if any(b != 0xEE for b in buf[nlen:]):
                 out.append(("%s: bytes beyond the returned length were written" % where, None))
             data = buf[:nlen]
